@@ -121,6 +121,10 @@ func verifC14SymMeta(o *unstructured.Unstructured, tag string, labels bool, key 
 	if labels {
 		set = env.SetLabel
 	}
+	if shape == 3 { // {key+"-renamed": v}: as many entries as shape 1, another key
+		set(o, key+"-renamed", v)
+		return shape, v
+	}
 	set(o, key, v)
 	if shape == 2 {
 		set(o, "extra", "x")
@@ -266,14 +270,17 @@ func VerifC14_DecoratorParentUpdateIgnoreStatus() {
 	genOld, genCur := rt.Int64("old-generation"), rt.Int64("cur-generation")
 	verifC14SetGeneration(old, genOld)
 	verifC14SetGeneration(cur, genCur)
-	lShapes, aShapes := 3, 2
+	lShapes, aShapes, oaShapes := 4, 2, 2
 	if !ignore && rt.Tier() == 0 {
 		// without ignoreStatusChanges the old state is not looked at: one shape
-		lShapes, aShapes = -1, -1
+		lShapes, aShapes, oaShapes = -1, -1, -1
 	}
 	olShape, olV := verifC14SymMeta(old, "old-labels", true, "tier", lShapes)
 	clShape, clV := verifC14SymMeta(cur, "cur-labels", true, "tier", 3)
-	oaShape, oaV := verifC14SymMeta(old, "old-annotations", false, "note", aShapes)
+	if oaShapes > 0 && rt.Bool("old-annotation-under-another-key") {
+		oaShapes = -3
+	}
+	oaShape, oaV := verifC14SymMeta(old, "old-annotations", false, "note", oaShapes)
 	caShape, caV := verifC14SymMeta(cur, "cur-annotations", false, "note", aShapes)
 	hasFin := rt.Bool("cur-has-finalizer")
 	if hasFin {
